@@ -97,8 +97,9 @@ class FullOps(TorchCalls):
             dtype = "Bool"
         if fn in ("mean",) and dtype in ("Int", "Bool"):
             dtype = "Default"
-        return t.but(axes=axes, deg=deg, dtype=dtype, alias=False, span=t.span and "C" in axes, poly=None, idx_of=None,
-                     size_of=None, kind="pyint" if t.is_py else t.kind, **fl)
+        out = t.but(axes=axes, deg=deg, dtype=dtype, alias=False, span=t.span and "C" in axes, poly=None, idx_of=None,
+                    size_of=None, kind="pyint" if t.is_py else t.kind, **fl)
+        return self.tag(out, "reduce", node, fn=fn, over=[t.axes[d] for d in dims], over_pos=list(dims), in_axes=list(t.axes), in_origin=sorted(t.origin))
 
     def arg_reduce(self, t: TV, fn, dim, node):
         d = self.axis_of(t, dim, node) if dim is not None and not (isinstance(dim, Const) and dim.v is None) else (0 if len(t.axes) == 1 else None)
@@ -115,7 +116,7 @@ class FullOps(TorchCalls):
             self.ev("scale_branch", node, left=str(t.deg), right="-", why=f"{fn} of a non-homogeneous value")
         return TV(kind=t.kind, axes=axes, deg=F0, dtype="Int", idx_of=tag, origin=t.origin, gen=t.gen, rng=t.rng, **fl)
 
-    def sort_like(self, t: TV, fn, dim, node, k=None):
+    def sort_like(self, t: TV, fn, dim, node, k=None, extra=None):
         d = self.axis_of(t, dim, node) if dim is not None else len(t.axes) - 1
         if d is None:
             return self.unk(f"{fn} over unresolved dim", node)
@@ -130,7 +131,8 @@ class FullOps(TorchCalls):
             fl["q"] = False
         vals = t.but(axes=axes, alias=False, span=False, poly=None, **fl)
         idxs = TV(kind=t.kind, axes=axes, deg=F0, dtype="Int", idx_of=tag, origin=t.origin, gen=t.gen, rng=t.rng, **fl)
-        self.ev("sort", node, fn=fn, axis=tag)
+        vals = self.tag(vals, fn, node, axis=tag, axis_pos=d, in_axes=list(t.axes), in_origin=sorted(t.origin), **(extra or {}))
+        idxs = idxs.but(origin=vals.origin)
         return vals, idxs
 
     # =========================================================================== tensor methods
@@ -254,8 +256,9 @@ class FullOps(TorchCalls):
         d = self.axis_of(t, vals.get("dim"), node)
         if d is None:
             return self.unk("narrow dim", node)
-        self.ev("narrow", node, axis=t.axes[d], start=repr(vals.get("start")), length=repr(vals.get("length")))
-        return self.slice_axis(t, d, ("slice", vals.get("start"), Const("len"), None), node)
+        r = self.slice_axis(t, d, ("slice", vals.get("start"), Const("len"), None), node, tag_it=False)
+        return self.tag(r, "narrow", node, axis=t.axes[d], axis_pos=d, start_poly=self.poly_of(vals.get("start")),
+                        length_poly=self.poly_of(vals.get("length")), in_origin=sorted(t.origin))
 
     def diag(self, t: TV, node):
         if len(t.axes) == 1:
@@ -315,8 +318,12 @@ class FullOps(TorchCalls):
                     self.clear("p", "random draw laid out along the row axis", node)
                 if not q:
                     self.clear("q", "random draw laid out along the column axis", node)
-                return TV(kind=kind, axes=axes, p=p, q=q, s=q, z=q and fl["z"], deg=F0, dtype=dtype, origin=origin, rng=True)
-            return TV(kind=kind, axes=axes, deg=deg, dtype=dtype, origin=origin, poly=poly, z=fl["z"], span=deg == Z and "C" in axes)
+                return self.tag(TV(kind=kind, axes=axes, p=p, q=q, s=q, z=q and fl["z"], deg=F0, dtype=dtype, origin=origin, rng=True),
+                                fn, node, axes=list(axes))
+            out = TV(kind=kind, axes=axes, deg=deg, dtype=dtype, origin=origin, poly=poly, z=fl["z"], span=deg == Z and "C" in axes)
+            if fn in ("eye", "identity"):
+                out = self.tag(out, "eye", node, axes=list(axes))
+            return out
         if fn in LIKE:
             if a0 is None:
                 return self.unk(fn, node)
@@ -430,16 +437,17 @@ class FullOps(TorchCalls):
             fl = {}
             if d is not None and a0.axes[d] == "C":
                 fl = self.lose_axis_flags(a0, "C", "ext", node)
-            self.ev("softmax", node, axis=a0.axes[d] if d is not None else "?")
-            return a0.but(deg=F0 if a0.deg in (F0, Z) else None, alias=False, poly=None, **fl)
+            out = a0.but(deg=F0 if a0.deg in (F0, Z) else None, alias=False, poly=None, **fl)
+            return self.tag(out, fn, node, axis=a0.axes[d] if d is not None else "?", in_origin=sorted(a0.origin), in_axes=list(a0.axes))
         if fn == "one_hot":
             n = tv_of(kwargs.get("num_classes", args[1] if len(args) > 1 else None))
             tag = n.size_of if n is not None and n.size_of else "K"
             ok = a0.idx_of == tag
             if not ok and tag == "R":
                 self.clear("p", "one_hot of values that are not row indices", node)
-            return TV(kind=kind, axes=a0.axes + (tag,), p=a0.p and (ok or tag != "R"), q=a0.q, s=a0.s, z=a0.z, deg=F0, dtype="Int",
-                      origin=a0.origin, gen=a0.gen, rng=a0.rng)
+            out = TV(kind=kind, axes=a0.axes + (tag,), p=a0.p and (ok or tag != "R"), q=a0.q, s=a0.s, z=a0.z, deg=F0, dtype="Int",
+                     origin=a0.origin, gen=a0.gen, rng=a0.rng)
+            return self.tag(out, "one_hot", node, classes_poly=n.poly if n is not None else None, in_idx_of=a0.idx_of, in_origin=sorted(a0.origin))
 
         # ---- reductions
         if fn in SYM_REDUCTIONS or fn == "vector_norm" or fn == "matrix_norm":
@@ -479,11 +487,14 @@ class FullOps(TorchCalls):
                 pos = {"sort": 1, "argsort": 1, "topk": 2, "kthvalue": 2}.get(fn)
                 if pos is not None and len(args) > pos:
                     dim = args[pos]
+            extra = {}
             if fn == "topk":
-                srt = kwargs.get("sorted", args[4] if len(args) > 4 else TRUE)
-                self.ev("topk", node, k=repr(kwargs.get("k", args[1] if len(args) > 1 else None)),
-                        largest=repr(kwargs.get("largest", args[3] if len(args) > 3 else TRUE)), sorted=repr(srt))
-            vals, idxs = self.sort_like(a0, fn, dim, node)
+                extra = dict(k_poly=self.poly_of(kwargs.get("k", args[1] if len(args) > 1 else None)),
+                             largest=self.interp.truth(kwargs.get("largest", args[3] if len(args) > 3 else TRUE)),
+                             sorted=self.interp.truth(kwargs.get("sorted", args[4] if len(args) > 4 else TRUE)))
+            else:
+                extra = dict(descending=self.interp.truth(kwargs.get("descending", args[2] if len(args) > 2 else FALSE)))
+            vals, idxs = self.sort_like(a0, fn, dim, node, extra=extra)
             if fn == "topk" and self.interp.truth(kwargs.get("sorted", args[4] if len(args) > 4 else TRUE)) is not True:
                 vals = vals.but(axes=tuple("U" if a == "K" and i == len(vals.axes) - 1 else a for i, a in enumerate(vals.axes)))
                 idxs = idxs.but(axes=vals.axes)
@@ -550,7 +561,7 @@ class FullOps(TorchCalls):
             b = tv_of(args[1])
             pv = kwargs.get("p", args[2] if len(args) > 2 else None)
             pn = 2 if pv is None else (tv_of(pv).poly.const_value() if tv_of(pv) is not None and tv_of(pv).poly is not None else None)
-            self.ev("cdist", node, p=str(pn), compute_mode=repr(kwargs.get("compute_mode")))
+            cm = kwargs.get("compute_mode", args[3] if len(args) > 3 else None)
             fl = dict(p=a0.p and b.p, q=a0.q and b.q, s=a0.s and b.s, z=a0.z and b.z)
             if pn != 2:
                 if fl["q"]:
@@ -558,8 +569,10 @@ class FullOps(TorchCalls):
                 fl["q"] = False
             if a0.axes[-1] != "C" or b.axes[-1] != "C":
                 self.ev("type_error", node, why="cdist over a non-column axis")
-            return TV(kind=kind, axes=(a0.axes[0], b.axes[0]), deg=deg_sum(a0.deg, b.deg), dtype=self.promote(a0.dtype, b.dtype),
-                      origin=a0.origin | b.origin, gen=a0.gen | b.gen, rng=a0.rng or b.rng, **fl)
+            out = TV(kind=kind, axes=(a0.axes[0], b.axes[0]), deg=deg_sum(a0.deg, b.deg), dtype=self.promote(a0.dtype, b.dtype),
+                     origin=a0.origin | b.origin, gen=a0.gen | b.gen, rng=a0.rng or b.rng, **fl)
+            raw = lambda t: t.alias and t.axes == ("R", "C") and t.origin == frozenset(["matrix"])
+            return self.tag(out, "cdist", node, p=str(pn), compute_mode=cm.v if isinstance(cm, Const) else None, both_raw=raw(a0) and raw(b))
         if fn == "diag":
             return self.diag(a0, node)
         if fn == "diagonal":
@@ -595,7 +608,7 @@ class FullOps(TorchCalls):
         r, c = a0.axes
         base = dict(alias=False, span=False, poly=None)
         U = a0.but(axes=(r, "K"), deg=F0 if a0.deg is not None else None, **base)
-        S = a0.but(axes=("K",), **base)
+        S = self.tag(a0.but(axes=("K",), **base), "svd_S", node, in_origin=sorted(a0.origin), raw=a0.alias and a0.origin == frozenset(["matrix"]))
         # the right factor is *not* Q-invariant: V -> Q^T V
         V = a0.but(axes=("K", c) if lib.endswith("linalg.") else (c, "K"), deg=F0 if a0.deg is not None else None, **base)
         if c == "C":
@@ -680,8 +693,10 @@ class FullOps(TorchCalls):
             deg = F0
         else:
             deg = None
-        self.ev("solve_qp", node, degs={k: str(t.deg) for k, t in tvs.items()}, solver=repr(kwargs.get("solver")),
-                origins={k: sorted(t.origin) for k, t in tvs.items()})
+        sv = kwargs.get("solver")
+        self.ev("solve_qp", node, degs={k: str(t.deg) for k, t in tvs.items()}, solver=sv.v if isinstance(sv, Const) else repr(sv),
+                origins={k: sorted(t.origin) for k, t in tvs.items()}, polys={k: t.poly for k, t in tvs.items()},
+                axes={k: list(t.axes) for k, t in tvs.items()})
         self.ev("assumption", node, what="solve_qp returns the unique optimum (row-permutation equivariant)")
         org = frozenset().union(*[t.origin for t in tvs.values()]) | {"solve_qp"}
         return TV(kind="ndarray", axes=(tag,), deg=deg, dtype="F64", origin=org, note="optional",
